@@ -246,7 +246,7 @@ func main() {
 	for i := 0; i < *nk; i++ {
 		pick := func() ent {
 			if len(known) == 0 || r.Chance(1, 10) {
-				return ent{id: 99, addr: types.Address(crypto.GenerateEd25519PrivKey().PublicKey().Address())}
+				return ent{id: 9999999, addr: types.Address(crypto.GenerateEd25519PrivKey().PublicKey().Address())}
 			}
 			return known[r.Intn(len(known))]
 		}
@@ -265,7 +265,7 @@ func main() {
 			p := pass()
 			kp, err := kb.Create(p)
 			if err != nil {
-				emit("K create 99 "+hexs(p), "err "+list())
+				emit("K create 9999999 "+hexs(p), "err "+list())
 				continue
 			}
 			e := ent{id: len(known), addr: kp.GetAddress()}
